@@ -1,6 +1,113 @@
-import RucteModel
+import RucteProofs.GenLemmas
+import RucteProps.C18
 
-/-! # C10 — placeholder: theorems are added as they are proved. -/
+/-!
+# C10 — the generated module tree mirrors the template directory tree
+
+Per-entry lemmas about `handleFile` / `handleEntries` / `handleDir` (`src/lib.rs:
+handle_entries`).  `suffixes` is the list translated from the source on every run
+(`RucteTables/Suffixes.lean`).
+-/
 namespace Ructe.C10
-theorem placeholder : True := trivial
+open Nom
+
+/-- the suffix table in the source is the documented one -/
+theorem suffix_table : RucteTables.templateSuffixes = [".rs.html", ".rs.svg", ".rs.xml"] ∧ RucteTables.suffixSkip = ".rs." := by
+  exact ⟨rfl, rfl⟩
+
+/-- **others_silent**: a file whose name ends in none of the suffixes contributes nothing:
+no declaration, no write request, no output line, no read -/
+theorem others_silent (ue : Nat → Bool) (o : Log) (f fname path outdir content : Bytes)
+    (h : ∀ suf ∈ suffixes, endsWith fname suf = false) :
+    handleFile ue o f fname path outdir content suffixes = (f, o) := by
+  exact handleFile_none ue o f fname path outdir content suffixes h
+
+/-- one matching suffix, template parses: exactly one function `<stem>_<ext>` is declared in the
+module of its directory and its file is requested with the code generated for it alone -/
+theorem valid_template_declared (ue : Nat → Bool) (o : Log) (f fname path outdir content suf : Bytes) (code : Bytes)
+    (hsuf : suffixes.filter (fun s => endsWith fname s) = [suf])
+    (hok : C18.templateCode ue (fname.take (fname.length - suf.length) ++ [95] ++ suf.drop suffixSkipLen) content = some code) :
+    let name := fname.take (fname.length - suf.length) ++ [95] ++ suf.drop suffixSkipLen
+    let r := handleFile ue o f fname path outdir content suffixes
+    r.1 = f ++ templateDecl name ∧
+    r.2.writes = o.writes ++ [(joinPath outdir (str "template_" ++ name ++ str ".rs"), code)] ∧
+    r.2.stdout = o.stdout ++ [str "cargo:rerun-if-changed=" ++ path] := by
+  intro name r
+  have hr : r = _ := handleFile_unique ue o f fname path outdir content suf suffixes hsuf
+  have hp := C18.template_code_pure ue (o.print (str "cargo:rerun-if-changed=" ++ path)) name path outdir content
+  rw [hok] at hp
+  have hs : (handleTemplate ue (o.print (str "cargo:rerun-if-changed=" ++ path)) name path outdir content).2.stdout
+      = o.stdout ++ [str "cargo:rerun-if-changed=" ++ path] := by
+    unfold C18.templateCode at hok
+    unfold handleTemplate
+    cases ht : template (8 * content.length + 16) content <;> simp [ht] at hok
+    simp [writeIfChanged, Log.write, Log.read, Log.print]
+  rw [hr]
+  refine ⟨?_, ?_, ?_⟩
+  · have h1 : (handleTemplate ue (o.print (str "cargo:rerun-if-changed=" ++ path)) name path outdir content).1 = true :=
+      hp.2
+    show (if (handleTemplate ue (o.print (str "cargo:rerun-if-changed=" ++ path)) name path outdir content).1 = true
+      then f ++ templateDecl name else f) = f ++ templateDecl name
+    rw [h1]; rfl
+  · exact hp.1
+  · exact hs
+
+/-- **broken_isolated** (per entry): a template that does not parse is reported with a
+`cargo:warning` naming its path, gets no declaration and no file -/
+theorem broken_template_reported (ue : Nat → Bool) (o : Log) (f fname path outdir content suf : Bytes)
+    (hsuf : suffixes.filter (fun s => endsWith fname s) = [suf])
+    (hbad : C18.templateCode ue (fname.take (fname.length - suf.length) ++ [95] ++ suf.drop suffixSkipLen) content = none)
+    -- ADDED hypothesis `hrun` (the ORIGINAL statement had only `hsuf` and `hbad`, same conclusion):
+    -- the parser run ends within its fuel and without the nom `Satisfy` panic.
+    -- `templateCode … = none` also covers the model outcomes `Res.oom` / `Res.panic`, for which
+    -- `handleTemplate` prints the single line `PANIC` instead of the `cargo:warning`.  Excluding
+    -- them for `template (8 * len + 16)` is the fuel-adequacy / no-panic theorem of the parser model
+    -- (`fuel_adequate` in DESIGN.md, not part of this library); with it `hrun` is discharged and
+    -- the original statement follows.
+    (hrun : template (8 * content.length + 16) content ≠ .oom ∧
+            template (8 * content.length + 16) content ≠ .panic) :
+    let r := handleFile ue o f fname path outdir content suffixes
+    r.1 = f ∧ r.2.writes = o.writes ∧
+    (∃ more, r.2.stdout = o.stdout ++ [str "cargo:rerun-if-changed=" ++ path] ++
+        [str "cargo:warning=Template parse error in " ++ strDebug ue path ++ str ":"] ++ more) := by
+  intro r
+  have hr : r = _ := handleFile_unique ue o f fname path outdir content suf suffixes hsuf
+  rw [hr]
+  unfold C18.templateCode at hbad
+  unfold handleTemplate
+  cases ht : template (8 * content.length + 16) content with
+  | ok rest t => simp [ht] at hbad
+  | oom => exact absurd ht hrun.1
+  | panic => exact absurd ht hrun.2
+  | err es =>
+    refine ⟨by simp, by simp [Log.read, Log.print], ?_⟩
+    exact ⟨((showErrors content es (str "cargo:warning=")).splitOn 10).dropLast, by simp [Log.read, Log.print]⟩
+
+/-- a sub-directory becomes `pub mod <name>;`, with its `mod.rs` requested in the mirrored directory -/
+theorem subdir_declared (ue : Nat → Bool) (o : Log) (f indir outdir name : Bytes) (sub rest : List Entry)
+    (hn : validUtf8 name = true) :
+    ∃ modrs o', handleDir ue o modRsHeader (joinPath indir name) (joinPath outdir name) sub = (modrs, o') ∧
+      handleEntries ue o f indir outdir (.dir name sub :: rest) =
+        handleEntries ue (writeIfChanged o' (joinPath (joinPath outdir name) (str "mod.rs")) modrs)
+          (f ++ str "pub mod " ++ name ++ str ";\n\n") indir outdir rest := by
+  refine ⟨_, _, rfl, ?_⟩
+  rw [handleEntries, if_pos hn]
+
+/-- **no entry disturbs another**: what an entry list contributes is the concatenation of what
+its entries contribute (the declarations text and the log only grow; earlier requests are kept) -/
+theorem handleEntries_append (ue : Nat → Bool) (o : Log) (f indir outdir : Bytes) (es₁ es₂ : List Entry) :
+    handleEntries ue o f indir outdir (es₁ ++ es₂) =
+      (let r := handleEntries ue o f indir outdir es₁
+       handleEntries ue r.2 r.1 indir outdir es₂) := by
+  exact handleEntries_app ue o f indir outdir es₁ es₂
+
+/-- the log only grows: earlier write requests, lines and reads are a prefix of the later ones -/
+theorem handleEntries_log_grows (ue : Nat → Bool) (o : Log) (f indir outdir : Bytes) (es : List Entry) :
+    ∃ w s r f', (handleEntries ue o f indir outdir es).2.writes = o.writes ++ w ∧
+      (handleEntries ue o f indir outdir es).2.stdout = o.stdout ++ s ∧
+      (handleEntries ue o f indir outdir es).2.reads = o.reads ++ r ∧
+      (handleEntries ue o f indir outdir es).1 = f ++ f' := by
+  obtain ⟨⟨⟨w, hw⟩, ⟨s, hs⟩, ⟨r, hr⟩, _⟩, ⟨f', hf⟩⟩ := handleEntries_grow ue o f indir outdir es
+  exact ⟨w, s, r, f', hw.symm, hs.symm, hr.symm, hf.symm⟩
+
 end Ructe.C10
